@@ -198,6 +198,8 @@ def run(res: Results, idx: Index, tier: str) -> None:
 
     _rule_b(res, idx, cg)
     _rule_c(res, idx, cg)
+    from .c01_roles import run_roles
+    run_roles(res, idx, plugins)
 
 
 def _rule_b(res: Results, idx: Index, cg) -> None:
